@@ -1,6 +1,6 @@
 """Per-property configuration of the driver: budgets, evidence floors, rule texts, passes."""
 
-SETUP_VARIANTS = ["verif", "rel"]
+SETUP_VARIANTS = ["verif", "rel", "gdb", "tsan", "asan"]
 
 COMMON_ASSUMPTIONS = [
     "exploration only: the verdict covers the executions listed in coverage, nothing else",
@@ -282,4 +282,32 @@ CONFIG["C17"] = {
              "Non-trivial: programs with at least 3 nodes / strings of any kind; distinct: distinct texts."),
     "assumptions": COMMON_ASSUMPTIONS + ["a generated source text that the parser refuses is outside the property and is counted as inconclusive; a floor keeps the accepted share high"],
     "counter_floors": {"quick": {"render.second-text-equal": 60000, "string.error-list": 100000, "string.parsed-single-root": 4000, "program.has-assertion": 500, "program.has-disconnect": 3000, "source.feature.cmr-expression": 300, "source.feature.alias": 10000}},
+}
+
+SAN_ENV_TSAN = {"TSAN_OPTIONS": "halt_on_error=1 exitcode=66 report_signal_unsafe=0 second_deadlock_stack=1"}
+SAN_ENV_ASAN = {"ASAN_OPTIONS": "halt_on_error=1 abort_on_error=1 detect_leaks=1 allocator_may_return_null=1", "LSAN_OPTIONS": "exitcode=23"}
+
+CONFIG["C20"] = {
+    "budget_s": {"quick": 150, "thorough": 2400},
+    "floor": {"quick": 1000, "thorough": 100000},
+    "hang_is_violation": True,
+    "passes": [
+        {"variant": "verif"},
+        {"variant": "tsan", "params": {"rounds": 96}, "env": SAN_ENV_TSAN, "tiers": ["quick"]},
+        {"variant": "tsan", "params": {"rounds": 12000}, "env": SAN_ENV_TSAN, "tiers": ["thorough"]},
+        {"variant": "asan", "params": {"rounds": 32}, "env": SAN_ENV_ASAN, "tiers": ["quick"]},
+        {"variant": "asan", "params": {"rounds": 12000}, "env": SAN_ENV_ASAN, "tiers": ["thorough"]},
+    ],
+    "rule": ("a case is a round: a pool of 3..7 generated Elements programs (bytes, witness, a transaction, and the RedeemNode / CommitNode built by the main thread), 1..3 policies with an availability pattern, 2 source texts (one broken) and 2 types with values; "
+             "every operation is first run one at a time on the main thread (twice: it must repeat), then 2, 3, 4, 8 or 16 threads released together each run every (item, operation) 2..5 times in their own random order with random yields. "
+             "Operations: decode from bytes; decode + exec in an own environment (C jets); exec of the SHARED RedeemNode on an own machine; prune of the SHARED RedeemNode; type inference of the program in a fresh context; two nested contexts finalised in the opposite order; "
+             "commit decode + string_serialize + parse; clone / iterate / drop of the SHARED nodes; the C pipeline (decode, type inference, analyses, evaluation through simplicity-sys); policy cmr / commit, satisfy + exec, sorted; Forest::parse; "
+             "Final built on this thread == the SHARED Final built on the main thread (thread-local precomputed tables), Value built here == SHARED Value, padded round trip against the shared type. "
+             "Monitor: every concurrent result string equals the sequential one; no panic on any thread; no worker death or hang (driver watchdog). An event log of global sequence numbers at operation start/end shows how many operations overlapped on the same item and on the same shared object. "
+             "Passes: release with debug assertions; ThreadSanitizer (Rust std rebuilt, C built with -fsanitize=thread) and AddressSanitizer (+LeakSanitizer, C instrumented) on the same workload, where any report kills the worker and is attributed to the round. "
+             "Non-trivial: rounds in which at least two operations on the same item overlapped on different threads; distinct: distinct rounds."),
+    "assumptions": COMMON_ASSUMPTIONS + ["each thread owns its inference contexts, machines and environments, as the property states; inference contexts themselves are not shared between threads",
+                                         "deadlock is observed through the driver's watchdog (3x budget + 120 s): a hang is reported as a violation for this property because its statement excludes deadlock",
+                                         "interleavings are whatever the OS scheduler produces under 8 workers x up to 16 threads on 16 cores plus random yields; the evidence lists overlap counts, not a schedule enumeration"],
+    "counter_floors": {"quick": {"overlaps.same-shared-object": 25000, "ops.concurrent": 1000000}},
 }
